@@ -30,6 +30,7 @@ func checkC07(r *Run) {
 	r.Rule("C07.R2.sync", "all receivers route only into the synchronizer, which counts unique leaseholders and emits the merged response", 8)
 	r.Rule("C07.R3.sender", "BatchSwitchSender.send and confluence.BatchSwitch both remove a target's entry after sending to it", 2)
 	r.Rule("C07.R5.broadcast", "the writer's peer switch addresses every peer for every command when acknowledgements are synchronous (the synchronizer counts one response per leaseholder)", 1)
+	r.Rule("C07.ERR", "no error returned by a call is discarded in the distribution framer except the tabled sites (a swallowed peer or gateway error is a write or read that silently did not happen on one node)", 1)
 	r.Rule("C07.R6.ack", "freeWriter.transform returns a response on every path except after an error or when acknowledgements are not synchronous (it is one of the responders the synchronizer counts)", 1)
 	r.Rule("C07.R4.mask", "every range over Frame.RawKeys()/RawSeries() calls ShouldExcludeRaw on the loop index", 8)
 
@@ -39,6 +40,7 @@ func checkC07(r *Run) {
 	checkMaskDiscipline(r, p)
 	checkPeerBroadcast(r, p)
 	checkFreeWriterAck(r, p)
+	checkErrDrop(r, p, "C07.ERR", func(fn *FuncNode) bool { return fn.InPkgs("synnax/pkg/distribution/framer") && !fn.InPkgs("synnax/pkg/distribution/framer/codec", "synnax/pkg/distribution/framer/pb") }, 150)
 }
 
 // checkFreeWriterAck decides C07.R6: the free (virtual-channel) writer is one of the
